@@ -52,6 +52,7 @@ pub fn expected_roundtrip(ty: u8, raw: &[u8]) -> Resp {
     o.extend_from_slice(&j);
     o.extend_from_slice(&enc);
     o.extend_from_slice(&enc);
+    o.push(1); // serialiser errors propagate (bounded sinks)
     Resp::Ok(o)
 }
 
